@@ -256,6 +256,10 @@ def run_once(prog, how, seed, settings, clock, outfile, in_thread=False):
         if prog.get("max_stack"):
             opts.MAX_TASK_STACK_SIZE = prog["max_stack"]
         rt = harness.HarnessRT(prog, prio=PRIO, seed=seed)
+        if prog.get("evil"):
+            # the scheduler's own batch.flush() call raises (switching the active batch fails / flush() overridden /
+            # a before-subscriber already flushed the batch): the after-flush event still has to fire
+            rt.evil = tuple(prog["evil"])
         # what a program can observe also includes who the active task is
         rt.step_probes.append(_active_probe)
         rt.sync_probes.append(_after_sync_probe)
@@ -304,6 +308,9 @@ def run_unit(unit, progress):
         if i % 12 == 5:
             prog = wide_program(rnd)
             inc("wide_programs")
+        if i % 12 == 2:
+            prog["evil"] = [rnd.choice(["switch", "override", "preflush"]), rnd.randrange(2)]
+            inc("programs_in_which_the_schedulers_flush_call_raises")
         if i % 12 == 9:
             prog = overflow_program(rnd)
             inc("programs_recovering_from_the_recursion_guard_in_a_nested_sync_call")
@@ -412,7 +419,7 @@ def reach(c, tier):
     for k in printing:
         if not c.get("single_option_runs_with_diagnostic_output_" + k):
             out.append("option %s never produced diagnostic output" % k)
-    for k in ("profiler_entries", "perf_stats_runs_with_elapsed_over_2^31_us", "keep_dependencies_runs", "programs_with_sync_reentry", "programs_with_synchronous_item_value", "programs_ending_in_exception", "programs_recovering_from_the_recursion_guard_in_a_nested_sync_call"):
+    for k in ("profiler_entries", "perf_stats_runs_with_elapsed_over_2^31_us", "keep_dependencies_runs", "programs_with_sync_reentry", "programs_with_synchronous_item_value", "programs_ending_in_exception", "programs_recovering_from_the_recursion_guard_in_a_nested_sync_call", "programs_in_which_the_schedulers_flush_call_raises"):
         if not c.get(k):
             out.append("%s is zero" % k)
     return out
